@@ -153,7 +153,7 @@ func c01E2E(c *vlib.Ctx, states, transitions, traces *int64) {
 					rep := map[string]interface{}{"dag": spec, "placement_per_node(0 none,1 put,2 delete,3 put+delete,4 delete+put)": raw, "query": v, "expected_live_nodes": live}
 					cls := c01Class(spec, place, v, live)
 					if nontrivialE2E(anc, place, v) {
-						c.Nontrivial(fmt.Sprintf("e2e|%s|%d|%d", spec, code, v))
+						c.NontrivialDistinct(1)
 					}
 					switch len(live) {
 					case 1:
